@@ -896,6 +896,15 @@ class Engine(Interp):
                 for h, (scc, mod, _hn) in loops.items():
                     if from_bb in scc and bb not in scc:
                         tag = tuple(x for x in tag if not (isinstance(x, tuple) and len(x) == 4 and x[0] in ("L", "F") and x[1] == frame.uid and x[2] == h))
+            if from_bb is not None and tag and body.blocks[from_bb]["term"]["k"] == "switch":
+                # how a callee returned keeps its exits apart until the caller has branched on the result — no longer
+                # (two branches: the `?` on the Result, then the test of what was inside)
+                n_own = len(frame.uid)
+
+                def child(x):
+                    return isinstance(x, tuple) and len(x) == 4 and x[0] in ("ret", "ret1") and isinstance(x[1], tuple) and len(x[1]) > n_own and x[1][:n_own] == frame.uid
+                if any(child(x) for x in tag):
+                    tag = tuple((("ret1",) + x[1:]) if (child(x) and x[0] == "ret") else x for x in tag if not (child(x) and x[0] == "ret1"))
             if from_bb is not None:
                 # inside the body of an iterator-driven loop the constant boolean flags it modifies keep the states apart as well, so that
                 # what was established on the path that left a flag untouched is not merged with the path that set it before the loop head
@@ -984,7 +993,7 @@ class Engine(Interp):
                         t2 = tuple(x for x in s2.tag if not (isinstance(x, tuple) and len(x) == 4 and x[0] in ("L", "it", "F") and x[1] == frame.uid))
                         # how the callees of this frame returned no longer matters once this frame returns
                         n_own = len(frame.uid)
-                        t2 = tuple(x for x in t2 if not (isinstance(x, tuple) and len(x) == 4 and x[0] == "ret" and isinstance(x[1], tuple)
+                        t2 = tuple(x for x in t2 if not (isinstance(x, tuple) and len(x) == 4 and x[0] in ("ret", "ret1") and isinstance(x[1], tuple)
                                                          and len(x[1]) > n_own and x[1][:n_own] == frame.uid))
                         if strip_all:
                             n_uid = len(frame.uid)
